@@ -447,6 +447,16 @@ def run_shard(spec, ctx, acc):
             for bit in range(32):
                 c2 = {"kind": "keyid", "kid": kid ^ (1 << bit)}
                 core.handle(acc, check(c2), c2, known)
+                nb = kid ^ (1 << bit)
+                if bit < 28 and not names_of(nb) and (i + bit) % 4 == spec["part"] % 4:
+                    # ... and a message that carries the neighbour next to the key itself: two
+                    # items, two attributes, the undocumented one as raw bytes under its own name
+                    w_ = WIDTH[(nb >> 28) & 7]
+                    c3 = {"kind": "parse", "mode": (i + bit) % 2, "hdr": bytes([1, 0, 0, 0]) if (i + bit) % 2 == 0 else bytes([0, 1, 0, 0]),
+                          "items": [[nb, bytes([0xA0 + j for j in range(w_)])], [kid, codec.value_of(typ, G.zero_raw(typ))]]}
+                    o3 = check(c3)
+                    o3.classes = list(o3.classes) + ["bit-neighbour-in-message"]
+                    core.handle(acc, o3, c3, known)
             # undocumented *siblings*: same group and item, other size code
             if i % 3 == spec["part"] % 3 or tier != "quick":
                 for code in (1, 2, 3, 4, 5):
